@@ -133,6 +133,34 @@ Proof.
     rewrite forallb_forall in Hmin. apply Hmin. rewrite <- E. apply filter_In. tauto.
 Qed.
 
+(* ... and conversely every pick satisfying the relation is in the set: the membership test of the
+   correspondence can never reject a pick the property allows (no false alarm from the set being too small) *)
+Lemma eligible_in_indices m p j : eligible m p j = true -> In j (indices m).
+Proof.
+  intros He. apply in_indices. unfold eligible in He.
+  apply andb_true_iff in He. destruct He as [He _]. apply andb_true_iff in He. destruct He as [Hd _].
+  unfold desired in Hd. destruct (nth_error (m_status m) j) as [s|] eqn:E; [|discriminate].
+  apply nth_error_Some. congruence.
+Qed.
+
+Theorem allowed_picks_complete m p pick : pick_ok m p pick = true -> In pick (allowed_picks m p).
+Proof.
+  unfold allowed_picks. destruct pick as [i|]; cbn [pick_ok]; intros H.
+  - apply andb_true_iff in H. destruct H as [He Hmin].
+    assert (Hel : In (N.to_nat i) (filter (eligible m p) (indices m))).
+    { apply filter_In. split; [eapply eligible_in_indices; exact He | exact He]. }
+    destruct (filter (eligible m p) (indices m)) as [|e0 el'] eqn:E; [destruct Hel|].
+    set (el := e0 :: el') in *. apply in_map_iff. exists (N.to_nat i). split; [rewrite N2Nat.id; reflexivity|].
+    apply filter_In. split; [exact Hel|]. apply forallb_forall. intros j Hj.
+    assert (Hj' : In j (filter (eligible m p) (indices m))) by (rewrite E; exact Hj).
+    apply filter_In in Hj'. destruct Hj' as [Hji Hje].
+    rewrite forallb_forall in Hmin. specialize (Hmin j Hji). rewrite Hje in Hmin. exact Hmin.
+  - destruct (filter (eligible m p) (indices m)) as [|e0 el'] eqn:E; [left; reflexivity|].
+    assert (Hin : In e0 (filter (eligible m p) (indices m))) by (rewrite E; left; reflexivity).
+    apply filter_In in Hin. destruct Hin as [Hi He]. rewrite forallb_forall in H. specialize (H e0 Hi).
+    rewrite He in H. discriminate.
+Qed.
+
 (* ---- statuses: Have is absorbing (C12), who may be served (C09), what is advertised (C11) ------- *)
 Lemma nth_set_nth {A} (l : list A) i j x : nth_error (set_nth l i x) j =
   if Nat.eqb i j then (match nth_error l i with Some _ => Some x | None => None end) else nth_error l j.
